@@ -479,6 +479,11 @@ class R:
 
     __hash__ = None
 
+    def __bool__(self):
+        # Python truthiness of a number (`if x:`, np.count_nonzero / np.nonzero on object arrays): forks on x != 0.
+        # Without this a symbolic real was silently truthy -- a hidden concretisation (seed C20-f went through it).
+        return bool(self.v != 0) if self.concrete else bool(self != 0)
+
     def __float__(self):
         if self.concrete:
             return float(self.v)
